@@ -337,7 +337,7 @@ mod verif_kani {
         };
     }
     inst!(bh_contract_n2_m2, 5, bh_contract_n2(2));
-    inst!(bh_contract_n2_m3, 5, bh_contract_n2(3));
+    // family size 3 (division by 3.0) did not finish in 3600 s and is not claimed
     inst!(ranks_contract_n2, 5, ranks_contract::<2>());
     inst!(ranks_contract_n3, 6, ranks_contract::<3>());
     inst!(ranks_contract_n4, 7, ranks_contract::<4>());
